@@ -213,6 +213,33 @@ class ExprParser:
 
 
 def lean_expr(expr, env, mode="Int", what="?"):
+    """C++ arithmetic expression -> Lean term; `std::min<T>(a, b)` / `std::max<T>(a, b)` are understood"""
+    env = dict(env)
+    n = 0
+    while True:
+        m = re.search(r"std::(min|max)\s*(?:<\s*\w+\s*>)?\s*\(", expr)
+        if not m:
+            break
+        i = m.end() - 1
+        depth = 0
+        end = None
+        for j in range(i, len(expr)):
+            if expr[j] == "(":
+                depth += 1
+            elif expr[j] == ")":
+                depth -= 1
+                if depth == 0:
+                    end = j + 1
+                    break
+        if end is None:
+            raise TranslateError("%s: unbalanced parentheses in %r" % (what, expr))
+        args = split_args(expr[m.end():end - 1])
+        if len(args) != 2:
+            raise TranslateError("%s: std::%s with %d arguments in %r" % (what, m.group(1), len(args), expr))
+        n += 1
+        name = "__m%d" % n
+        env[name] = "(int)(%s %s %s)" % (m.group(1), lean_expr(args[0], env, mode, what), lean_expr(args[1], env, mode, what))
+        expr = expr[:m.start()] + name + expr[end:]
     return ExprParser(expr, env, mode, what).parse()
 
 
@@ -718,7 +745,19 @@ def gen_sites(src, out):
             raise TranslateError("%s: leftCols(d + skip).rightCols(d) not found" % prefix)
         out.defn(prefix + "_smallest_leftCols", ["d", "skip"], E(mm.group(1), env, what=prefix), "smallest: `.leftCols(%s)`" % mm.group(1))
         out.defn(prefix + "_smallest_rightCols", ["d", "skip"], E(mm.group(2), env, what=prefix), "smallest: `.rightCols(%s)` of those" % mm.group(2))
-        mm = re.search(r"eigenvalues\(\)\.segment\(([^,]+), ([^)]+)\)\)", small)
+        mm = None
+        ms_ = re.search(r"eigenvalues\(\)\.segment\(", small)
+        if ms_:
+            endp = balanced_end(small, ms_.end() - 1)
+            sargs = split_args(small[ms_.end():endp - 1])
+            if len(sargs) == 2:
+                class _M:
+                    def __init__(self, a):
+                        self.a = a
+
+                    def group(self, i):
+                        return self.a[i - 1]
+                mm = _M(sargs)
         if mm:
             env_s = dict(env)
             env_s["solver.eigenvalues().size()"] = "n"
@@ -730,7 +769,9 @@ def gen_sites(src, out):
                 env_s[lm.group(1)] = "(min %s %s)" % (a_, b_)
                 note = " with `%s`" % lm.group(0)
             out.defn(prefix + "_segment_start", ["d", "skip"], E(mm.group(1), env, what=prefix), "smallest: `eigenvalues().segment(%s, %s)` — start" % (mm.group(1), mm.group(2)))
-            out.defn(prefix + "_segment_len", ["d", "skip", "n"], E(mm.group(2), env_s, what=prefix), "… and number of entries (n = number of eigenvalues)" + note)
+            out.defn(prefix + "_segment_len", ["d", "skip", "n"],
+                     E(mm.group(2).replace("solver.eigenvalues().size()", "EIGSIZE"), dict(env_s, EIGSIZE="n"), what=prefix),
+                     "… and number of entries (n = number of eigenvalues)" + note)
         elif prefix != "rand":
             raise TranslateError("%s: eigenvalues().segment(start, n) not found" % prefix)
         return body
